@@ -98,6 +98,16 @@ class Env:
         return self.log.count(tuple(e))
 
 
+from asphalt.core import context_teardown as _context_teardown  # noqa: E402
+
+
+@_context_teardown
+async def _shared_context_teardown(env, label):
+    env.ev("td_registered", label)
+    yield
+    env.ev("td", label)
+
+
 async def run_steps(env: Env, node: NodeSpec, phase: str, steps: list):
     for st in steps:
         k = st[0]
@@ -248,6 +258,20 @@ async def run_steps(env: Env, node: NodeSpec, phase: str, steps: list):
             label = st[1]
             add_teardown_callback(lambda label=label: env.ev("td", label))
             env.ev("td_registered", label)
+        elif k == "tdaw":
+            # a teardown callback that returns a NON-coroutine awaitable (like pool.close() of some libraries); done only once that was awaited
+            label = st[1]
+
+            class _Aw:
+                def __await__(self, label=label):
+                    yield from anyio.sleep(0).__await__()
+                    env.ev("td", label)
+
+            add_teardown_callback(lambda: _Aw())
+            env.ev("td_registered", label)
+        elif k == "ctxtd":
+            # ONE @context_teardown function shared by every component that uses this step
+            await _shared_context_teardown(env, st[1])
         elif k == "tdbase":
             # a teardown callback that raises a BaseException
             label = st[1]
